@@ -793,6 +793,9 @@ class PVal(Proxy):
     def __init__(self, p):
         self.p = p
 
+    def __str__(self):
+        return '<value parsed at %s>' % (self.p,)
+
 
 def err_code(m, e):
     for c, nm in ERRS.items():
@@ -917,6 +920,212 @@ def unpack_array(run, twin=None):
                           (P_err(S_end(holder['q'], k)) == ec) if (k is not None and ec) else False,
                           clause='fails with the error of the first element that fails (earlier ones parsed)', path=p)
         core.explore(body, on_path)
+
+
+Is_list = z3.Function('parsed_value_is_a_list', Int, z3.BoolSort())
+Is_hashable = z3.Function('parsed_value_is_hashable', Int, z3.BoolSort())
+Deep_hashable = z3.Function('parsed_list_converts_to_a_hashable_tuple', Int, z3.BoolSort())
+Dup_key = z3.Function('parsed_key_equals_an_earlier_key', Int, z3.BoolSort())
+
+
+class TupleKey(Proxy):
+    """_deep_list_to_tuple(value parsed at p) (contract of that function: harness deep_list_to_tuple)"""
+    def __init__(self, p):
+        self.p = p
+
+    def __str__(self):
+        return '<tuple of the list parsed at %s>' % (self.p,)
+
+
+class ParsedMap(loader.Mutable):
+    """{key_j: value_j for j < base} (the pairs parsed so far, opaque) plus the pairs stored since the last cut"""
+    _pyclass = dict
+
+    def __init__(self):
+        self.base = z3.IntVal(0)
+        self.items = []
+
+    def __contains__(self, k):
+        if not isinstance(k, PVal):
+            raise EngineEscape('membership of %r' % (k,))
+        return core.branch(Dup_key(k.p))
+
+    def __setitem__(self, k, v):
+        if isinstance(k, TupleKey) and core.branch(z3.Not(Deep_hashable(k.p))):
+            raise TypeError('unhashable type (model)')
+        self.items.append((k, v))
+        self.touched()
+
+    def havoc(self, L, base):
+        self.base, self.items = base, []
+        self._hav = L
+
+
+@harness('C14', 'supp.umsgpack._unpack_map', twins=('spec-keys-at-odd-positions',))
+def unpack_map(run, twin=None):
+    """header per spec, then n (key, value) pairs read by _unpack (modular call, induction hypothesis); loop invariant:
+    pos == S_end(q, 2k), no value before it failed, the dict holds the first k pairs.  A list key is converted by _deep_list_to_tuple;
+    UnhashableKeyException exactly for a key that is neither a list nor hashable (or a list that does not convert to a hashable tuple),
+    DuplicateKeyException exactly for a non-list key equal to an earlier one; the error of the first failing element propagates"""
+    m = um()
+    data = M.Data()
+    p0 = z3.Int('pos')
+    j = z3.Int('j')
+    holder = {}
+    Hashable = m.Hashable
+
+    def noerr(q, k):
+        return z3.ForAll([j], z3.Implies(z3.And(j >= 0, j < k), P_err(S_end(q, j)) == 0))
+
+    def snapshot(L, st):
+        L.q = st['fp'].pos
+        holder['q'], holder['n'], holder['L'] = L.q, L.n, L
+        seq_axioms(L.q)
+
+    def pair_ok(L, item, k):
+        key, val = item
+        kp = S_end(L.q, 2 * k) if not twin else S_end(L.q, 2 * k + 1)
+        vp = S_end(L.q, 2 * k + 1) if not twin else S_end(L.q, 2 * k)
+        if not (isinstance(key, (PVal, TupleKey)) and isinstance(val, PVal)):
+            return z3.BoolVal(False)
+        return z3.And(key.p == kp, val.p == vp, z3.BoolVal(isinstance(key, TupleKey)) == Is_list(kp))
+
+    def inv(L, st):
+        d, fp = st['d'], st['fp']
+        if not isinstance(d, ParsedMap):
+            return z3.BoolVal(False)
+        if len(d.items) == 0:
+            held = d.base == L.k
+        elif len(d.items) == 1:
+            held = z3.And(d.base == L.k - 1, pair_ok(L, d.items[0], L.k - 1))
+        else:
+            return z3.BoolVal(False)
+        return z3.And(fp.pos == S_end(L.q, 2 * L.k), noerr(L.q, 2 * L.k), held)
+
+    def hav(L, st):
+        st['fp'].havoc(L, S_end(L.q, 2 * L.k))
+        st['d'].havoc(L, L.k)
+        holder['k'] = L.k
+        return {}
+    spec = LoopSpec(inv, hav, temps=('i', 'k', 'v'), length=lambda it: it.n, element=lambda it, k: SInt(k))
+    spec.snapshot = snapshot
+
+    def sym_isinstance(o, cls):
+        if isinstance(o, PVal):
+            if cls is list:
+                return core.branch(Is_list(o.p))
+            if cls is Hashable:
+                return core.branch(Is_hashable(o.p))
+            raise EngineEscape('isinstance(parsed value, %r)' % (cls,))
+        return isinstance(o, cls)
+
+    f = loader.load(MOD, '_unpack_map', stubs=dict(BASE_STUBS(), _read_except=read_except_contract, _unpack=unpack_hypothesis, range=m_range,
+                                                    _deep_list_to_tuple=lambda k: TupleKey(k.p)),
+                    cuts={0: spec}, displays={'dict': ParsedMap}, builtins_extra={'isinstance': sym_isinstance})
+    for fmt in fam_formats('map'):
+        def body(fmt=fmt):
+            holder.clear()
+            assume(z3.And(p0 >= 1, p0 <= data.total))
+            code, cint = sym_code(fmt)
+            fp = InStream(data, p0)
+            holder['fp'], holder['c'] = fp, cint
+            return f(code, fp)
+
+        def on_path(p, out, fmt=fmt):
+            lab = fmt[0].replace(' ', '')
+            cases = M.parse_scalar(fmt, holder['c'], data, p0)      # header only
+            for i, (cond, outcome) in enumerate(cases):
+                if not p.feasible(cond):
+                    continue
+                if outcome[0] != M.OK:
+                    prove('%s-header-case%d' % (lab, i), z3.BoolVal(out[0] == 'exc' and exc_kind(m, out[1]) == outcome[0]),
+                          clause='truncated header: insufficient data', path=p)
+                    continue
+                hv, q = outcome[1], outcome[2]
+                if 'q' not in holder:
+                    prove('%s-reaches-the-pairs' % lab, False, path=p)
+                    continue
+                prove('%s-header' % lab, z3.Implies(cond, z3.And(holder['q'] == q, holder['n'] == hv.n)),
+                      clause='pair count and first key position as the spec\'s header says', path=p)
+                if out[0] == 'ok':
+                    r = out[1]
+                    ok = isinstance(r, ParsedMap) and not r.items
+                    prove('%s-result' % lab, (r.base == holder['n']) if ok else False,
+                          clause='returns the dict of the n pairs parsed consecutively (key, value, key, value ...)', path=p)
+                    prove('%s-end' % lab, holder['fp'].pos == S_end(holder['q'], 2 * holder['n']),
+                          clause='consumes exactly the header and 2n values', path=p)
+                else:
+                    k = holder.get('k')
+                    e = out[1]
+                    ec = err_code(m, e)
+                    if k is None or ec is None:
+                        prove('%s-no-other-exception(%s)' % (lab, type(e).__name__), False, path=p)
+                        continue
+                    kp, vp = S_end(holder['q'], 2 * k), S_end(holder['q'], 2 * k + 1)
+                    nested = z3.Or(P_err(kp) == ec, z3.And(P_err(kp) == 0, P_err(vp) == ec))
+                    own = z3.BoolVal(False)
+                    if ec == 4:
+                        own = z3.And(P_err(kp) == 0, z3.Or(z3.And(z3.Not(Is_list(kp)), z3.Not(Is_hashable(kp))),
+                                                           z3.And(Is_list(kp), P_err(vp) == 0, z3.Not(Deep_hashable(kp)))))
+                    if ec == 5:
+                        own = z3.And(P_err(kp) == 0, z3.Not(Is_list(kp)), Is_hashable(kp), Dup_key(kp))
+                    prove('%s-error-is-the-first-failure' % lab, z3.Or(nested, own),
+                          clause='fails with the error of the first element that fails, or UnhashableKey / DuplicateKey for exactly such a key', path=p)
+        core.explore(body, on_path)
+
+
+@harness('C14', 'supp.umsgpack._deep_list_to_tuple')
+def deep_list_to_tuple(run):
+    """a list becomes the tuple of its converted elements (same length, same order; the recursive call is the induction hypothesis);
+    anything else is returned as it is"""
+    m = um()
+    holder = {}
+
+    class ConvList(Proxy):
+        """[conv(e_j) for j < n]"""
+        _pyclass = list
+
+        def __init__(self, src):
+            self.src = src
+
+    def hyp(e):
+        return ('conv', e)
+
+    def schema(kind, iterable, elt, conds):
+        if kind != 'list' or conds or not isinstance(iterable, SListP):
+            raise EngineEscape('comprehension changed shape')
+        if core.choice(2) == 0:
+            k = core.fresh('k', Int)
+            assume(z3.And(k >= 0, k < iterable.n))
+            e = iterable.elem_at(k)
+            prove('element-k-is-the-conversion-of-element-k', elt(e) == ('conv', e), kind='loop')
+            raise core.PathEnd()
+        return ConvList(iterable)
+
+    def sym_isinstance(o, cls):
+        if isinstance(o, SListP):
+            return cls is list
+        return isinstance(o, cls)
+
+    f = loader.load(MOD, '_deep_list_to_tuple', stubs={'_deep_list_to_tuple': hyp, 'tuple': lambda x: ('tuple-of', x)}, comps={0: schema},
+                    builtins_extra={'isinstance': sym_isinstance, 'tuple': lambda x: ('tuple-of', x)})
+
+    def body():
+        lst = SListP('obj')
+        assume(lst.n >= 0)
+        holder['l'] = lst
+        return f(lst)
+
+    def on_path(p, out):
+        r = out[1] if out[0] == 'ok' else None
+        prove('list-becomes-the-tuple-of-converted-elements',
+              isinstance(r, tuple) and r[0] == 'tuple-of' and isinstance(r[1], ConvList) and r[1].src is holder['l'], path=p)
+    core.explore(body, on_path)
+
+    def ground(path):
+        for v in (1, 'a', b'b', None, (1, [2]), 1.5, {'k': [1]}):
+            prove('non-list-%s-returned-as-it-is' % type(v).__name__, m._deep_list_to_tuple(v) is v, path=path)
+    core.explore(lambda: None, lambda p, out: ground(p))
 
 
 class TableStub(object):
